@@ -147,7 +147,36 @@ static void fill_event(Poly *P, int maxcand) {
     hs_free(&cs); ppoly_free(&PP); for (int k = 0; k < 5; k++) gb_free(out[k]);
 }
 
+/* ---- binding of the bounding-box model H3BBox to the internal functions it transcribes (weak symbols: a refactoring that
+ * renames them only disables this model-conformance part).  Boxes on an integer longitude grid (units pi/H); the first box has
+ * even, the second odd longitudes so that no two edges coincide and rounding cannot matter. */
+typedef struct { double north, south, east, west; } VBBox;
+extern bool bboxOverlapsBBox(const VBBox *a, const VBBox *b) __attribute__((weak));
+extern bool bboxContainsBBox(const VBBox *a, const VBBox *b) __attribute__((weak));
+extern bool bboxContains(const VBBox *bbox, const LatLng *point) __attribute__((weak));
+static int bbox_main(int quick, const char *path) {
+    vt_open(path);
+    if (!bboxOverlapsBBox || !bboxContainsBBox || !bboxContains) { fputs("{\"e\":\"bboxAbsent\"}\n", vt_out); vt_close(); return 0; }
+    int H = 12; int n = quick ? 12000 : 200000;
+    for (int i = 0; i < n; i++) {
+        int v[8];
+        for (int k = 0; k < 2; k++) {           /* k = 0: even longitudes, k = 1: odd; width below half the globe; either may wrap */
+            int w = (int)vt_randn(H - 1) * 2 - (H - 2) + k; if (w > H - 1) w = H - 1; int wd = (int)vt_randn(H / 2) * 2; int e = w + wd; if (e > H - 1) e -= 2 * H;
+            if (e < 1 - H) e = 1 - H + ((e + k) & 1);
+            int s = (int)vt_randn(7) - 3, nn = s + (int)vt_randn(4);
+            v[4 * k] = nn; v[4 * k + 1] = s; v[4 * k + 2] = e; v[4 * k + 3] = w;
+        }
+        VBBox a = {v[0] * 0.25, v[1] * 0.25, v[2] * M_PI / H, v[3] * M_PI / H}, b = {v[4] * 0.25, v[5] * 0.25, v[6] * M_PI / H, v[7] * M_PI / H};
+        int plat = (int)vt_randn(9) - 4, plng = (int)vt_randn(2 * H + 1) - H; if (((plng - v[3]) & 1) == 0) plng += plng < H ? 1 : -1;     /* a point off a's edges */
+        LatLng p = {plat * 0.25 + 0.01, plng * M_PI / H};
+        fprintf(vt_out, "{\"e\":\"bbox\",\"H\":%d,\"a\":{\"n\":%d,\"s\":%d,\"e\":%d,\"w\":%d},\"b\":{\"n\":%d,\"s\":%d,\"e\":%d,\"w\":%d},\"ov\":%d,\"ovr\":%d,\"ct\":%d,\"plat\":%d,\"plng\":%d,\"pin\":%d}\n",
+                H, v[0], v[1], v[2], v[3], v[4], v[5], v[6], v[7], bboxOverlapsBBox(&a, &b) ? 1 : 0, bboxOverlapsBBox(&b, &a) ? 1 : 0, bboxContainsBBox(&a, &b) ? 1 : 0, plat, plng, bboxContains(&a, &p) ? 1 : 0);
+    }
+    vt_close(); return 0;
+}
+
 int main(int argc, char **argv) {
+    if (argc >= 5 && !strcmp(argv[1], "bbox")) { vt_seed(strtoull(argv[3], 0, 10) + 77); return bbox_main(argv[2][0] == 'q', argv[4]); }
     if (argc < 5 || strcmp(argv[1], "run")) return 2;
     int quick = argv[2][0] == 'q'; vt_seed(strtoull(argv[3], 0, 10) + 7); vt_open(argv[4]);
     getPentagons(0, PENT0);
